@@ -31,6 +31,9 @@ def letter_name(x):
 def signature(row, inv):
     letters = sorted({letter_name(x) for x in row["ammo"]})
     lt = "mix" if row["mix"] else letters[0]
+    if "child process died" in row["run_err"]:
+        return "gun=%s posts=%s letter=%s inv=RunOK cause=%s" % (
+            row["gun"], row["posts"], lt, "data-race-dns-cache" if "DATA RACE" in row["run_err"] else "process-crash")
     if inv in ("RunOK", "AllFired") and "shoot panic" in row["run_err"]:
         what = "panic"
         if "slice bounds" in row["run_err"]:
@@ -38,6 +41,37 @@ def signature(row, inv):
         # which letters can have caused it is in the replay file; the class is the stable part
         return "gun=%s posts=%s letter=%s inv=%s cause=%s" % (row["gun"], row["posts"], lt, "RunOK", what)
     return "gun=%s posts=%s letter=%s inv=%s" % (row["gun"], row["posts"], lt, inv)
+
+
+def dns_child(binary, out, rounds, instances, race):
+    """The host-name / down-at-construction history in a process of its own: a fatal runtime error (concurrent map writes)
+    kills the process and cannot be recorded from inside, so the death of the child IS the observation.  With the race
+    build a report of the race detector that involves the DNS cache (lib/netutil) counts the same."""
+    import subprocess
+    e = vlib.go_env()
+    e["VERIF_SEED"] = str(vlib.seed())
+    try:
+        p = subprocess.run([binary, "dnsrace", "-out", out, "-rounds", str(rounds), "-instances", str(instances)], env=e,
+                           stdout=subprocess.PIPE, stderr=subprocess.PIPE, text=True, errors="replace", timeout=600)
+    except subprocess.TimeoutExpired:
+        raise vlib.MachineryError("dnsrace child timed out")
+    err = p.stderr
+    crash = None
+    if "fatal error: concurrent map" in err:
+        crash = "child process died: " + [ln for ln in err.splitlines() if "fatal error" in ln][0]
+    elif race and "DATA RACE" in err and "netutil" in err:
+        crash = "child process died: WARNING: DATA RACE in lib/netutil (SimpleDNSCache)"
+    if crash is None and p.returncode != 0 and not (race and "DATA RACE" in err):
+        raise vlib.MachineryError("dnsrace child failed rc=%s\n%s" % (p.returncode, err[-3000:]))
+    rows = vlib.read_ndjson(out) if os.path.exists(out) else []
+    if crash:
+        n = instances
+        rows = [{"run": 9999 if race else 9998, "gun": "http", "posts": "none", "shots": 4 * n, "inst": n,
+                 "ammo": [{"l": "avrefused", "code": 200}] * (4 * n), "ammo_s": ["avrefused"] * (4 * n), "samples": [],
+                 "build_err": "", "run_err": crash, "fired": 0, "answered": 0, "seen": 0, "variant": "race" if race else "plain",
+                 "downs": 0, "faults": 0, "fatal": False, "mix": False, "wall_ms": 0, "retried": False, "kind": "letters",
+                 "vlen": 0, "cases": [], "stderr_tail": err[-1500:]}]
+    return rows
 
 
 def validate(v, path, tag=""):
@@ -74,24 +108,46 @@ def validate(v, path, tag=""):
 def run(tier, v):
     thorough = tier == "thorough"
     states = trans = 0
-    r = vlib.tlc("Responses", "Responses_exh.cfg", workers=8, heap="4g", deadlock=False, timeout=1200)
-    vlib.tlc_must_pass(r, "Responses_exh")
-    states += r.distinct
-    trans += r.generated
-    vlib.tlc_must_fail(vlib.tlc("Responses", "Responses_neg_panic.cfg", workers=2, heap="2g", deadlock=False, timeout=600),
-                       "Responses_neg_panic")
-    vlib.tlc_must_fail(vlib.tlc("ScenarioMC", "Scenario_neg_panic.cfg", workers=2, heap="2g", deadlock=False, timeout=600),
-                       "Scenario_neg_panic")
+    # design level: the five TLC runs go on in the background while the harness is built and the drivers run
+    import concurrent.futures
+    vlib.spec_copy()
+    ex = concurrent.futures.ThreadPoolExecutor(max_workers=5)
+    design = {
+        "Responses_exh": ex.submit(vlib.tlc, "Responses", "Responses_exh.cfg", workers=6, heap="4g", deadlock=False, timeout=1200),
+        "Availability_exh": ex.submit(vlib.tlc, "Availability", "Availability_exh.cfg", workers=2, heap="2g", deadlock=False, timeout=900),
+        "Responses_neg_panic": ex.submit(vlib.tlc, "Responses", "Responses_neg_panic.cfg", workers=1, heap="1g", deadlock=False, timeout=600),
+        "Availability_neg_bind": ex.submit(vlib.tlc, "Availability", "Availability_neg_bind.cfg", workers=1, heap="1g", deadlock=False, timeout=600),
+        "Scenario_neg_panic": ex.submit(vlib.tlc, "ScenarioMC", "Scenario_neg_panic.cfg", workers=1, heap="1g", deadlock=False, timeout=600),
+    }
     b = vlib.harness_build()
     d = vlib.scratch()
     out = os.path.join(d, "runs.ndjson")
     vlib.run_driver(b, ["responses", "-out", out, "-mix", "150" if thorough else "6", "-workers", "8"], timeout=2400)
+    # host-name target, down at construction, coming up while many instances dial: child processes (plain + -race build)
+    extra = dns_child(b, os.path.join(d, "dns.ndjson"), 20 if thorough else 6, 48, False)
+    br = vlib.harness_build(race=True)
+    extra += dns_child(br, os.path.join(d, "dnsr.ndjson"), 6 if thorough else 3, 16, True)
+    with open(out, "a") as f:
+        for r_ in extra:
+            f.write(json.dumps(r_, separators=(",", ":"), sort_keys=True) + "\n")
+    for name in ("Responses_exh", "Availability_exh"):
+        r = design[name].result()
+        vlib.tlc_must_pass(r, name)
+        states += r.distinct
+        trans += r.generated
+    for name in ("Responses_neg_panic", "Availability_neg_bind", "Scenario_neg_panic"):
+        vlib.tlc_must_fail(design[name].result(), name)
+    ex.shutdown()
     rows, tr = validate(v, out)
     for r_ in rows:     # machinery sanity: the handshake-level faults really were injected
         if r_["ammo"] and r_["ammo"][0]["l"].startswith("tls") and not r_["build_err"] and not r_["run_err"] \
                 and r_["fired"] == r_["shots"] and r_["faults"] < 3:    # (a run that died early is a verdict, not this)
             raise vlib.MachineryError("run %d (%s %s): the TLS target injected only %d handshake faults" % (
                 r_["run"], r_["gun"], r_["ammo"][0]["l"], r_["faults"]))
+        if r_["ammo"] and r_["ammo"][0]["l"] in ("avreset", "avhole") and not r_["build_err"] and not r_["run_err"] \
+                and r_["fired"] == r_["shots"] and r_["downs"] < 1:
+            raise vlib.MachineryError("run %d (%s %s): no connection met the target while it was away" % (
+                r_["run"], r_["gun"], r_["ammo"][0]["l"]))
     letters = {(r_["gun"], r_["posts"], letter_name(x)) for r_ in rows for x in r_["ammo"]}
     samples = []
     for r_ in rows[:: max(1, len(rows) // 5)][:5]:
@@ -114,7 +170,7 @@ def run(tier, v):
         "ammo_fired": sum(r_["fired"] for r_ in rows),
         "samples_observed": sum(len(r_["samples"]) for r_ in rows),
         "fatal_runs_documented": sum(1 for r_ in rows if r_["fatal"]),
-        "negative_controls": ["Responses_neg_panic", "Scenario_neg_panic"],
+        "negative_controls": ["Responses_neg_panic", "Scenario_neg_panic", "Availability_neg_bind"],
         "trace_spec_states": tr.distinct,
     }
     return "model_checking", cov, [
